@@ -376,3 +376,25 @@ pub fn flatten(
     let p = agg.flatten(&v);
     (p.evaluated_point, p.commitment_to_polynomial.0)
 }
+
+// ---- challenges derived by the verifier (C03) ----
+
+#[cfg(feature = "std")]
+std::thread_local! {
+    static CHALLENGES: core::cell::RefCell<Vec<BlsScalar>> = const { core::cell::RefCell::new(Vec::new()) };
+}
+
+#[cfg(feature = "std")]
+pub(crate) fn record_challenges(c: &[BlsScalar]) {
+    CHALLENGES.with(|v| *v.borrow_mut() = c.to_vec());
+}
+
+#[cfg(not(feature = "std"))]
+pub(crate) fn record_challenges(_c: &[BlsScalar]) {}
+
+/// Challenges (beta, gamma, alpha, 4 separators, z, v, v_w, u) of the last
+/// `Proof::verify` on this thread.
+#[cfg(feature = "std")]
+pub fn last_challenges() -> Vec<BlsScalar> {
+    CHALLENGES.with(|v| v.borrow().clone())
+}
